@@ -363,8 +363,9 @@ func runC03(c *Ctx) {
 		var def *ssa.Store
 		for _, st := range storesToField(fn, ".Timeout", "GlobalTimeout", false) {
 			for _, g := range guardsAt(st.Block()) {
-				if bo, ok := g.Cond.(*ssa.BinOp); ok && bo.Op == token.EQL && g.True && isZero(bo.Y) {
-					if _, f, _, ok := loadedField(bo.X); ok && f == "GlobalTimeout" {
+				// the guard must hold for every value that arms no timer (onUpstreamRequestSent arms it when > 0): v <= 0
+				if v, op, k, ok := cmpConst(g); ok && ((op == token.LEQ && k >= 0) || (op == token.LSS && k >= 1)) {
+					if _, f, _, ok := loadedField(stripConvNum(v)); ok && f == "GlobalTimeout" {
 						def = st
 					}
 				}
@@ -378,7 +379,7 @@ func runC03(c *Ctx) {
 				}
 			}
 		}
-		c.Check("C03.R5", funcKey(fn)+":default-global-timeout", fn.Pos(), okDef, "GlobalTimeout falls back to the default when 0, after all other sources", "the global timeout can remain 0 (no timer): a request whose upstream never answers would hang")
+		c.Check("C03.R5", funcKey(fn)+":default-global-timeout", fn.Pos(), okDef, "GlobalTimeout falls back to the default when it is 0 or negative, after all other sources", "the global timeout can remain 0 or negative (no timer is armed for either): a request whose upstream never answers would hang")
 	} else {
 		c.Unresolved("C03.R5", "proxy.parseProxyTimeout")
 	}
